@@ -100,6 +100,7 @@ class HistGen(object):
         self.dollar_values = 0.0
         self.slice_proj = 0.0     # share of find_one / find_one_and_* projections that hold $slice
         self.array_keys = 0.0     # share of the fields a / b that hold an ARRAY of colliding values
+        self.ttl_options = 0.0    # share of the index creations (ttl histories) that combine options
         self.shadow = []          # rough picture of the documents, to aim filters and updates
         self.index_names = []
         self.now = T0
@@ -332,11 +333,17 @@ class HistGen(object):
             return [k, self.filt(), self.ug.replacement(self.some_doc()), r.random() < 0.3]
         return [k, self.filt()]
 
+    # periods of a TTL index: whole, fractional, numeric string, non-numeric
+    TTL_PERIODS = [0, 1, 5, 10, 30, 5.5, '7', 'x']
+    PARTIAL_FILTERS = [{'c': {'$exists': True}}, {'b': {'$gt': 1}}, {'a': 1}]
+
     def create_index(self):
         r = self.r
+        if self.ttl and self.ttl_options and r.random() < self.ttl_options:
+            return self.create_index_combined()
         if self.ttl and r.random() < 0.6:
             keys = [['t', 1]] if r.random() < 0.85 else [['t', 1], ['a', 1]]
-            opts = {'expireAfterSeconds': r.choice([0, 1, 5, 10, 30, 5.5, '7', 'x'])}
+            opts = {'expireAfterSeconds': r.choice(self.TTL_PERIODS)}
         else:
             n = r.choice([1, 1, 1, 2])
             fields = r.sample(['a', 'b', 'c.d', 'a.b'], n)
@@ -347,8 +354,44 @@ class HistGen(object):
             if r.random() < 0.25:
                 opts['sparse'] = True
             if r.random() < 0.2:
-                opts['partialFilterExpression'] = r.choice(
-                    [{'c': {'$exists': True}}, {'b': {'$gt': 1}}, {'a': 1}])
+                opts['partialFilterExpression'] = r.choice(self.PARTIAL_FILTERS)
+        name = '_'.join('%s_%s' % (k, d) for k, d in keys)
+        if r.random() < 0.1:
+            opts['name'] = name = r.choice(['ix', 'jx'])
+        if name not in self.index_names:
+            self.index_names.append(name)
+        return ['create_index', keys, opts]
+
+    def create_index_combined(self):
+        """an index that carries SEVERAL options at once, every subset of {expireAfterSeconds,
+        unique, sparse, partialFilterExpression} of two or more, over the date field `t`, a field
+        of colliding values, or both.  The documents of a history hold few distinct values under
+        these fields (and often lack them), so that a creation with `unique` is as often REFUSED
+        (DuplicateKeyError over the existing documents: the index must then not exist in any
+        respect) as it succeeds; the same name comes back with other options (refused as well)"""
+        r = self.r
+        x = r.random()
+        if x < 0.6:
+            keys = [['t', 1]]
+        elif x < 0.75:
+            keys = [[r.choice(['a', 'b']), 1]]
+        else:
+            keys = [['t', 1], [r.choice(['a', 'b']), r.choice([1, -1])]]
+            if r.random() < 0.3:
+                keys.reverse()
+        while True:
+            opts = {}
+            if r.random() < 0.75:
+                opts['expireAfterSeconds'] = r.choice(self.TTL_PERIODS)
+            if r.random() < 0.7:
+                opts['unique'] = True
+            if r.random() < 0.3:
+                opts['sparse'] = True
+            if r.random() < 0.25:
+                opts['partialFilterExpression'] = copy.deepcopy(r.choice(
+                    self.PARTIAL_FILTERS + [{'t': {'$exists': True}}]))
+            if len(opts) >= 2:
+                break
         name = '_'.join('%s_%s' % (k, d) for k, d in keys)
         if r.random() < 0.1:
             opts['name'] = name = r.choice(['ix', 'jx'])
